@@ -1809,8 +1809,33 @@ impl DistributedTxCoordinator {
             );
         }
 
+        let mut decided = Vec::with_capacity(timed_out.len());
         for tx_id in &timed_out {
+            // A timeout is an abort decision that is about to be announced to the participants.
+            // Like `abort()`, it has to be in the log first: otherwise a restart restores a
+            // prepared transaction from the log and commits it after its abort was broadcast.
+            // If the log refuses the records, nothing is decided; the next sweep tries again.
+            let Some(from) = pending.get(tx_id).map(|tx| tx.phase) else {
+                continue;
+            };
+            let logged = self
+                .log_wal_entry(&TxWalEntry::PhaseChange {
+                    tx_id: *tx_id,
+                    from,
+                    to: TxPhase::Aborting,
+                })
+                .and_then(|()| {
+                    self.log_wal_entry(&TxWalEntry::TxComplete {
+                        tx_id: *tx_id,
+                        outcome: TxOutcome::Aborted,
+                    })
+                });
+            if let Err(e) = logged {
+                tracing::warn!(tx_id = tx_id, error = %e, "Timeout not logged, transaction stays pending");
+                continue;
+            }
             if let Some(tx) = pending.remove(tx_id) {
+                decided.push(*tx_id);
                 tracing::warn!(
                     tx_id = tx_id,
                     phase = ?tx.phase,
@@ -1848,7 +1873,7 @@ impl DistributedTxCoordinator {
             tracing::debug!(count = expired_locks, "Cleaned up expired locks");
         }
 
-        timed_out
+        decided
     }
 
     pub fn pending_count(&self) -> usize {
